@@ -679,4 +679,135 @@ import a.b as c, d
 from . import (e as f, g)
 type T[U] = (list[U])
 ''',
+    # search bounds: what FOLLOWS a computed location is decorated / parenthesised / commented, so a scan that runs past
+    # the node's own last token meets `(`, `)`, `:`, `@`, `#` that belong to the next sibling (def/lambda arguments,
+    # comprehension / withitem / match_case ends, block headers)
+    '''
+def decorator(func):
+    @functools.wraps(func)
+    def wrapper(*a): return func(*a)
+    return wrapper
+
+def factory(n, m=(1)):
+    @outer(inner(n))
+    @other((n))[0]
+    class K: pass
+
+async def af(x, y=(1), *z):
+    @d(x)()
+    async def inner(): pass
+
+def nested():
+    @a(1)
+    def one():
+        @b(2)
+        def two():
+            @c(3)
+            class Three: pass
+
+class C:
+    @staticmethod
+    def m(): pass
+    @prop(1)  # ) c
+    def n(self,): pass
+    def o(self):
+        @d()
+        def p(): pass
+
+class D(A, metaclass=(M)):
+    @deco(("x"))
+    def f(self): pass
+
+class E(A):
+    @deco(1)
+    class Inner(B): pass
+
+def g():  # ) comment with parenthesis
+    (x)
+def h():
+    # ) own-line comment (
+    (yield)
+def i(): (x); (y)
+def j(a=(1)): [(x)]
+def k(
+): (  # c
+    x)
+def l() -> (T):
+    @d(())
+    def m(): pass
+def n[T](a: T):
+    @d(T)
+    def o(): pass
+for x in y:
+    @d(x)
+    def q(): pass
+if a:
+    @d(a)
+    def r(): pass
+else:
+    @d(b)
+    class S: pass
+try:
+    @d(t)
+    def t(): pass
+except (E):
+    @d(u)
+    def u(): pass
+finally:
+    @d(v)
+    def v(): pass
+while (a):
+    @d(w)
+    def w(): pass
+''',
+    '''
+with a as b:
+    @d(x)
+    def f(): pass
+with (a):
+    (x)
+with a: (x)
+with a, (b): (c)
+with a as b, (c) as (d): (e)
+with a as (b):
+    @d((b))
+    class W: pass
+with (a), b:  # ) c
+    (x)
+async def aw():
+    async with a as b, c:
+        @d(1)
+        async def f(): pass
+match s:
+    case a:
+        @d()
+        def f(): pass
+    case (a): (x)
+    case a if b:
+        (c)
+    case [a, (b)]:  # ) c
+        @d((1))
+        class M: pass
+    case C(a) if (b): (c); (d)
+    case {"k": v}:
+        # ) comment
+        (v)
+f = lambda: (x)
+f = g(lambda: (x), (y))
+f = lambda a: (b)
+f = (lambda a, b=(1): (a)), (c)
+f = [lambda: (x), (y)]
+f = lambda: (yield), (z)
+f = g((x for x in y), (z))
+f = [x for x in y if z], (w)
+f = {x for x in (y)}, (z)
+f = g(x for x in y)(z)
+f = [(x) for x in y if (z)][(0)]
+f = {k: v for k, v in y if z}, (w)
+f = a if b else (c), (d)
+f = a < b, (c)
+f = not a, (b)
+f = a + b, (c)
+x += y; (z)
+''',
 ]
